@@ -9,6 +9,22 @@
 //!   docm <fam> <lines> <expected>   the same with adjacent texts merged and empty texts dropped
 //! Line `i` (0-based) is handed over with the span (i+1):4 – (i+1):(4+chars), as the Slice lexer does for a
 //! `///` at column 1. Spans and message texts of lints are not compared.
+//!
+//!   lexloc <fam> <located lines> <expected>     (C09, stream `C09clex`)
+//! located lines = `<hex>@<start row>.<start col>-<end row>.<end col>|…`: every line comes with the span the case names
+//! (any row, any column). The token stream of `lex` WITH the locations every token / error is returned with
+//! (Model/CommentLoc.lean `lexCommentLoc`): every element is `<token as above>@<start row>.<start col>-<end row>.<end col>`.
+//! Oracle on the lexer's output alone: an element lies on the row of the line it was lexed from (line k = the number of
+//! `Newline`s before it), between that line's start column and start column + number of characters, start <= end,
+//! elements of a line in order without overlap, the characters between start and end are the element's spelling
+//! (`Text` / `Identifier` payload, `@` + tag for keywords and tag errors, `{` + blanks, `}`, `:`, `::`, the unknown symbol),
+//! what lies between two elements is whitespace, and `Newline` / `UnterminatedInlineTag` are zero-width at the line's end.
+//!
+//!   docloc <fam> <located lines> <expected>     (C09, stream `C09doc`)
+//! the comment parser (`verif_hooks::parse_doc_comment`) on lines with the spans the case names; compared is the located
+//! comment `doc(<span>;ov=…;p=[…];r=[…];s=[…])` (format: harness/src/proj_c09.rs; Model/CommentDocLoc.lean `ldocS`), or
+//! `malformed` (the hook returns the lint's code, not its span: the span is compared by projection `c09:docspans`), or `panic`.
+//! Oracle on the parser's output alone: `proj_c09::doc_oracle` with the case's lines as the comment's lines.
 
 use crate::codec::CaseResult;
 use crate::dynval::{hex, unhex};
@@ -131,4 +147,135 @@ pub fn run_lex(lines: &str, expected: &str) -> CaseResult {
     let actual = act.join(" ");
     let diff = if act != exp { Some(crate::compile::short_diff(&exp.join(" "), &actual)) } else { None };
     CaseResult { nontrivial: act.len() > 2, actual, diff, oracle }
+}
+
+fn decode_lines_loc(field: &str) -> Option<Vec<(String, verif_hooks::Loc4)>> {
+    if field == "~" { return Some(vec![]); }
+    let mut out = vec![];
+    for item in field.split('|') {
+        let (h, l) = item.rsplit_once('@')?;
+        let (a, b) = l.split_once('-')?;
+        let (sr, sc) = a.split_once('.')?;
+        let (er, ec) = b.split_once('.')?;
+        let n = |x: &str| x.parse::<usize>().ok();
+        let text = String::from_utf8(unhex(h)?).ok()?;
+        out.push((text, (n(sr)?, n(sc)?, n(er)?, n(ec)?)));
+    }
+    Some(out)
+}
+
+/// the property's own predicate on one element of the comment lexer's output: `line` = the line it was lexed from,
+/// `prev_end` = the column where the previous element of that line ended (the line's start column for the first)
+fn check_comment_extent(dbg: &str, is_tok: bool, l: verif_hooks::Loc4, line: &(String, verif_hooks::Loc4), prev_end: usize) -> Option<String> {
+    let (sr, sc, er, ec) = l;
+    let (row, col0) = (line.1 .0, line.1 .1);
+    let chars: Vec<char> = line.0.chars().collect();
+    let at = format!("{sr}:{sc}-{er}:{ec}");
+    if sr == 0 || sc == 0 || er == 0 || ec == 0 { return Some(format!("{dbg}: {at} is not 1-based")); }
+    if sr != row || er != row { return Some(format!("{dbg}: {at} is not on row {row} of the line it was lexed from")); }
+    if sc > ec { return Some(format!("{dbg}: start after end ({at})")); }
+    if sc < col0 || ec > col0 + chars.len() { return Some(format!("{dbg}: {at} is outside the line's columns {}..{}", col0, col0 + chars.len())); }
+    if sc < prev_end { return Some(format!("{dbg}: starts at column {sc}, before the end of the previous element ({prev_end})")); }
+    if chars[prev_end - col0..sc - col0].iter().any(|c| !c.is_whitespace()) { return Some(format!("{dbg}: the characters between the previous element and {at} are not all whitespace")); }
+    let slice: String = chars[sc - col0..ec - col0].iter().collect();
+    let at_end = ec == col0 + chars.len();
+    let q = |t: &str| format!("{:?}", t);
+    let payload = |name: &str| -> Option<String> { Some(dbg.strip_prefix(name)?.strip_prefix('(')?.strip_suffix(')')?.to_string()) };
+    let field = |name: &str, key: &str| -> Option<String> {
+        let inner = dbg.strip_prefix(name)?.strip_prefix(" { ")?.strip_prefix(key)?.strip_prefix(": ")?;
+        Some(inner.split(", is_inline").next()?.trim_end_matches(" }").to_string())
+    };
+    let bad = || Some(format!("{dbg}: the text at {at} is {:?}", slice));
+    if is_tok {
+        if let Some(p) = payload("Text") { if q(&slice) != p || slice.is_empty() { return bad(); } }
+        else if let Some(p) = payload("Identifier") { if q(&slice) != p || slice.is_empty() { return bad(); } }
+        else {
+            match dbg {
+                "Newline" => if !slice.is_empty() || !at_end { return Some(format!("{dbg}: {at} is not the zero-width position at the end of its line ({}:{})", row, col0 + chars.len())); },
+                "ParamKeyword" => if slice != "@param" { return bad(); },
+                "ReturnsKeyword" => if slice != "@returns" { return bad(); },
+                "SeeKeyword" => if slice != "@see" { return bad(); },
+                "LinkKeyword" => if slice != "@link" { return bad(); },
+                "LeftBrace" => if !(slice.starts_with('{') && slice[1..].chars().all(|c| c.is_whitespace())) { return bad(); },
+                "RightBrace" => if slice != "}" { return bad(); },
+                "Colon" => if slice != ":" { return bad(); },
+                "DoubleColon" => if slice != "::" { return bad(); },
+                _ => return Some(format!("{dbg}: unknown token kind")),
+            }
+        }
+    } else if dbg == "UnterminatedInlineTag" {
+        if !slice.is_empty() || !at_end { return Some(format!("{dbg}: {at} is not the zero-width position at the end of its line")); }
+    } else if dbg == "MissingTag" {
+        if slice != "@" { return bad(); }
+    } else if let Some(t) = field("UnknownTag", "tag") {
+        // tags are ASCII alphanumeric runs: their `Debug` text is the text in quotes
+        if slice != format!("@{}", t.trim_matches('"')) { return bad(); }
+    } else if let Some(t) = field("IncorrectContextForTag", "tag") {
+        if slice != format!("@{}", t.trim_matches('"')) { return bad(); }
+    } else if dbg.starts_with("UnknownSymbol") {
+        if slice.chars().count() != 1 || !dbg.contains(&format!("{:?}", slice.chars().next().unwrap())) { return bad(); }
+    } else {
+        return Some(format!("{dbg}: unknown error kind"));
+    }
+    None
+}
+
+pub fn run_lexloc(lines: &str, expected: &str) -> CaseResult {
+    let bad = |why: &str| CaseResult { actual: "bad-case".into(), diff: Some(why.to_string()), oracle: None, nontrivial: false };
+    let Some(input) = decode_lines_loc(lines) else { return bad("undecodable lines") };
+    let one = |e: &str| -> Option<String> {
+        let (t, l) = e.rsplit_once('@')?;
+        let (a, b) = l.split_once('-')?;
+        let (sr, sc) = a.split_once('.')?;
+        let (er, ec) = b.split_once('.')?;
+        let n = |x: &str| x.parse::<usize>().ok();
+        Some(format!("{}@{}.{}-{}.{}", debug_of(t)?, n(sr)?, n(sc)?, n(er)?, n(ec)?))
+    };
+    let exp: Option<Vec<String>> = if expected == "-" { Some(vec![]) } else { expected.split(',').map(one).collect() };
+    let Some(exp) = exp else { return bad("undecodable expected tokens") };
+    if input.is_empty() { return bad("lexloc needs at least one line (Lexer::new panics on an empty comment)"); }
+    let r = catch_unwind(AssertUnwindSafe(|| verif_hooks::lex_comment(&input)));
+    let (act, oracle): (Vec<String>, Option<String>) = match r {
+        Err(_) => (vec!["panic".to_string()], Some("the comment lexer panicked".to_string())),
+        Ok(items) => {
+            let mut oracle = None;
+            let mut out = vec![];
+            let mut k = 0usize;                       // index of the line the next element is lexed from
+            let mut prev_end = input[0].1 .1;
+            for it in items {
+                let (is_tok, (d, l)) = match it { Ok(x) => (true, x), Err(x) => (false, x) };
+                if oracle.is_none() {
+                    oracle = match input.get(k) {
+                        Some(line) => check_comment_extent(&d, is_tok, l, line, prev_end),
+                        None => Some(format!("{d}: an element after the Newline of the last line")),
+                    };
+                }
+                out.push(format!("{}@{}.{}-{}.{}", d, l.0, l.1, l.2, l.3));
+                if !is_tok { break; }                  // the parser stops at the first lexer error
+                if d == "Newline" { k += 1; prev_end = input.get(k).map_or(0, |x| x.1 .1); } else { prev_end = l.3; }
+            }
+            (out, oracle)
+        }
+    };
+    let actual = act.join(" ");
+    let diff = if act != exp { Some(crate::compile::short_diff(&exp.join(" "), &actual)) } else { None };
+    CaseResult { nontrivial: act.len() > 2, actual, diff, oracle }
+}
+
+pub fn run_docloc(lines: &str, expected: &str) -> CaseResult {
+    let bad = |why: &str| CaseResult { actual: "bad-case".into(), diff: Some(why.to_string()), oracle: None, nontrivial: false };
+    let Some(input) = decode_lines_loc(lines) else { return bad("undecodable lines") };
+    let r = catch_unwind(AssertUnwindSafe(|| verif_hooks::parse_doc_comment(&input, "M::x")));
+    let (actual, oracle) = match r {
+        // `create_doc_comment` subtracts 3 from a column: a span that starts left of column 3 (no `///` fits in front of it) panics
+        Err(_) => ("panic".to_string(), if input.is_empty() || input.iter().any(|l| l.1 .1 < 4) { None } else { Some("the comment parser panicked".to_string()) }),
+        Ok((Some(c), codes)) => {
+            let rows = crate::proj_c09::DocRows::of_lines(&input);
+            let oracle = if !codes.is_empty() { Some(format!("a parsed comment came with diagnostics {:?}", codes)) } else { crate::proj_c09::doc_oracle(&rows, &c) };
+            (crate::proj_c09::doc_dump(&c), oracle)
+        }
+        Ok((None, _)) => ("malformed".to_string(), None),
+    };
+    let diff = if actual != expected { Some(crate::compile::short_diff(expected, &actual)) } else { None };
+    CaseResult { nontrivial: actual.starts_with("doc(") && actual.len() > 60, actual, diff, oracle }
 }
